@@ -1590,6 +1590,12 @@ func (tt *TermTable) Eval(t *Term, m Model, cache map[int]*Term) (*Term, bool) {
 				break
 			}
 		}
+		if strings.HasPrefix(t.name, "H:") {
+			if av, ok := tt.Eval(t.args[0], m, cache); ok {
+				r = evalHashApp(tt, t.name, av)
+				break
+			}
+		}
 		key := "app:" + t.name
 		for _, a := range t.args {
 			av, ok := tt.Eval(a, m, cache)
